@@ -92,18 +92,18 @@ def run_case(seed, T):
         r = rng.random()
         if r < 0.35:
             msg = gen_msg(rng)
-            before = len(S.sock.accepted)
+            before = len(S.accepted)
             was_conn = S.c.state == T.CONNECTION_STATE.CONNECTED
             S.send(msg, gen_sscript(rng, faulty))
             if was_conn:
                 frames.append(('msg', oracle.id_of(msg)))
-            pipe += S.sock.accepted[before:]
+            pipe += S.accepted[before:]
             ops.append('send')
         elif r < 0.55:
-            before = len(S.sock.accepted)
+            before = len(S.accepted)
             S.poll(rng.random() < 0.2, True, faulty and rng.random() < 0.03, faulty and rng.random() < 0.03,
                    gen_sscript(rng, faulty), [])
-            pipe += S.sock.accepted[before:]
+            pipe += S.accepted[before:]
             ops.append('swrite')
         elif r < 0.9:
             avail = len(pipe) - fed
@@ -135,9 +135,9 @@ def run_case(seed, T):
                 ops.append('disconnect')
     # drain
     for _ in range(3):
-        before = len(S.sock.accepted)
+        before = len(S.accepted)
         S.poll(False, True, False, False, [('acc', 100000)] * 3, [])
-        pipe += S.sock.accepted[before:]
+        pipe += S.accepted[before:]
     rest = bytes(pipe[fed:])
     rs = [('chunk', rest[i:i + 64], False) for i in range(0, len(rest), 64)]
     R.poll(True, False, False, False, [], rs)
@@ -171,13 +171,224 @@ def run_case(seed, T):
     return {'S': S, 'R': R, 'table': table, 'meta': meta, 'problems': problems}
 
 
+def is_reconnect_seed(seed):
+    """Which scenario a seed runs (kept a pure function of the seed so that corpus seeds stay what they were)."""
+    return seed % 5 in (0, 1)
+
+
+def _frame_of(msg):
+    import struct
+    payload = zlib.compress(F._pickle.dumps(msg, 2), 3)
+    return struct.pack('i', len(payload)) + payload
+
+
+def run_reconnect_case(seed, T):
+    """One connection R through several connection lifetimes ("generations").
+
+    Every generation has its own byte stream (a new pipe) of valid frames.  A lifetime ends with a read
+    burst that carries complete frames and/or a partial frame (often just 1-3 bytes of the next header)
+    and then EOF / ECONNRESET / SO_ERROR, or with a timeout, an ERROR event, a failing send or an explicit
+    disconnect().  With reconnect=True the onDisconnected callback calls connect() at once (TCPTransport's
+    behaviour); otherwise the harness calls connect() later.  Also exercised: send() and polls while
+    CONNECTING, SO_ERROR / ERROR while CONNECTING.
+    """
+    rng = random.Random(seed ^ 0x5bd1e995)
+    clock = F.Clock()
+    oracle = F.install(T, clock)
+    tmo = rng.choice([5, 10, 100, 10 ** 6, 10 ** 6])
+    flag = rng.random() < 0.8
+    R = F.Conn(T, clock, oracle, 6, tmo, reconnect=flag)
+    CS = T.CONNECTION_STATE
+    streams = {}         # generation -> {'ids', 'data', 'fed', 'bounds'}
+    ops = []
+
+    def stream():
+        g = R.gen
+        if g not in streams:
+            k = rng.choice([1, 2, 3, 3, 4, 6])
+            ids, data, bounds = [], bytearray(), []
+            for i in range(k):
+                n = rng.choice([0, 1, 5, 20, 60, 61, 130])
+                msg = {'g': g, 'i': i, 'pad': bytes(rng.randrange(256) for _ in range(n))}
+                ids.append(oracle.id_of(msg))
+                data += _frame_of(msg)
+                bounds.append(len(data))
+            streams[g] = {'ids': ids, 'data': bytes(data), 'fed': 0, 'bounds': bounds}
+        return streams[g]
+
+    def take(st_, how):
+        """how many bytes of the stream to hand over now"""
+        avail = len(st_['data']) - st_['fed']
+        if avail == 0:
+            return 0
+        nxt = [b for b in st_['bounds'] if b > st_['fed']]
+        if how == 'all':
+            return avail
+        if how == 'hdr' and nxt:
+            # up to a frame boundary plus 1..3 bytes of the next length field
+            b = rng.choice(nxt)
+            return min(avail, b - st_['fed'] + rng.choice([0, 1, 2, 3]))
+        if how == 'mid' and nxt:
+            # into the body of a frame
+            b = rng.choice(nxt)
+            prev = max([0] + [x for x in st_['bounds'] if x < b])
+            lo = max(prev + 4, st_['fed'] + 1)
+            if lo <= b:
+                return min(avail, rng.randint(lo, b) - st_['fed'])
+            return rng.randint(1, avail)
+        return rng.randint(0, avail)
+
+    def chunks_of(st_, k):
+        rs, pos = [], st_['fed']
+        end = pos + k
+        while pos < end:
+            n = min(end - pos, rng.choice([1, 2, 3, 4, 5, 7, 16, 64, 64]))
+            rs.append(('chunk', st_['data'][pos:pos + n], False))
+            pos += n
+        st_['fed'] = end
+        return rs
+
+    n_ops = rng.randrange(6, 28)
+    for _ in range(n_ops):
+        if tmo < 10 ** 6 and rng.random() < 0.04:
+            clock.now += tmo + 1
+        else:
+            clock.now += rng.choice([0, 0, 0, 1, 2])
+        state = R.c.state
+        r = rng.random()
+        if state == CS.DISCONNECTED:
+            if r < 0.6:
+                R.connect()
+                ops.append('connect')
+            elif r < 0.8:
+                R.poll(True, True, False, False, gen_sscript(rng, True), [('chunk', b'\x01\x02', False)])
+                ops.append('poll_disconnected')
+            else:
+                R.send(gen_msg(rng), gen_sscript(rng, True))
+                ops.append('send_disconnected')
+        elif state == CS.CONNECTING:
+            if r < 0.55:
+                R.poll(rng.random() < 0.6, rng.random() < 0.7, False, False, gen_sscript(rng, False), [])
+                ops.append('establish')
+            elif r < 0.75:
+                R.send(gen_msg(rng), gen_sscript(rng, rng.random() < 0.3))
+                ops.append('send_connecting')
+            elif r < 0.85:
+                R.poll(False, False, False, False, [], [])
+                ops.append('idle_connecting')
+            elif r < 0.95:
+                R.poll(rng.random() < 0.7, rng.random() < 0.7, rng.random() < 0.5, rng.random() < 0.7, [], [])
+                ops.append('error_connecting')
+            else:
+                R.disconnect()
+                ops.append('disconnect')
+        else:
+            st_ = stream()
+            if r < 0.42:
+                k = take(st_, rng.choice(['any', 'hdr', 'mid', 'all']))
+                rs = chunks_of(st_, k)
+                if rng.random() < 0.5:
+                    rs.append(('eagain',))
+                R.poll(True, rng.random() < 0.3, False, False, gen_sscript(rng, False), rs)
+                ops.append('feed')
+            elif r < 0.72:
+                # the burst that ends the lifetime: data, then EOF / error / SO_ERROR, in ONE read burst
+                k = take(st_, rng.choice(['hdr', 'hdr', 'mid', 'any', 'all']))
+                rs = chunks_of(st_, k)
+                end = rng.choice(['eof', 'eof', 'err', 'soerr'])
+                if end == 'eof':
+                    rs.append(('chunk', b'', False))
+                elif end == 'err':
+                    rs.append(('err',))
+                else:
+                    rs.append(('chunk', b'\x07', True))
+                R.poll(True, rng.random() < 0.3, False, False, gen_sscript(rng, False), rs)
+                ops.append('burst_' + end)
+            elif r < 0.84:
+                R.send(gen_msg(rng), gen_sscript(rng, rng.random() < 0.4))
+                ops.append('send')
+            elif r < 0.92:
+                R.poll(rng.random() < 0.3, True, False, False, gen_sscript(rng, rng.random() < 0.4), [])
+                ops.append('wpoll')
+            elif r < 0.96:
+                R.poll(rng.random() < 0.7, rng.random() < 0.7, rng.random() < 0.5, rng.random() < 0.7, [], [])
+                ops.append('error_poll')
+            else:
+                R.disconnect()
+                ops.append('disconnect')
+    # ---- settle: establish the current / a new connection and hand over its whole stream, no faults ----
+    settled = False
+    settle_gen = None
+    for _ in range(4):
+        if R.c.state == CS.DISCONNECTED:
+            R.connect()
+        if R.c.state == CS.CONNECTING:
+            R.poll(True, True, False, False, [], [])
+        if R.c.state == CS.CONNECTED:
+            st_ = stream()
+            settle_gen = R.gen
+            rs = chunks_of(st_, len(st_['data']) - st_['fed'])
+            R.poll(True, False, False, False, [], rs)
+            R.poll(True, False, False, False, [], [])
+            settled = True
+            break
+    ops.append('settle')
+    # ---- monitors (the property itself, on the implementation) ----
+    problems = []
+    if R.raised:
+        problems.append('exception escaped the connection handler: %r' % (R.raised,))
+    by_gen = {}
+    closed = set()
+    for e in R.log:
+        if e[0] == 'disc':
+            closed.add(e[1])
+        elif e[0] == 'msg':
+            g, mid = e[1], e[2]
+            by_gen.setdefault(g, []).append(mid)
+            owner = [h for h in streams if mid in streams[h]['ids']]
+            if owner and owner[0] != g:
+                problems.append('message %d received on connection #%d was delivered on connection #%d, after '
+                                'onDisconnected of #%d' % (mid, owner[0], g, owner[0]))
+            if g in closed:
+                problems.append('message %d delivered on connection #%d after its onDisconnected' % (mid, g))
+    for g, d in sorted(by_gen.items()):
+        ids = streams[g]['ids'] if g in streams else []
+        if d != ids[:len(d)]:
+            problems.append('connection #%d delivered %r, not a prefix of what was sent on it %r' % (g, d, ids))
+    if settled:
+        last = settle_gen
+        ids = streams[last]['ids']
+        if R.gen != last:
+            problems.append('connection #%d carried only valid frames but was disconnected (now at #%d, state %r)'
+                            % (last, R.gen, R.c.state))
+        elif R.c.state != CS.CONNECTED:
+            problems.append('connection #%d carried only valid frames but ended in state %r' % (last, R.c.state))
+        elif by_gen.get(last, []) != ids:
+            problems.append('connection #%d: sent %r, delivered %r' % (last, ids, by_gen.get(last, [])))
+        elif len(R.c._TcpConnection__readBuffer) != 0:
+            problems.append('connection #%d: %d stray bytes left in the read buffer'
+                            % (last, len(R.c._TcpConnection__readBuffer)))
+    else:
+        problems.append('harness: could not settle the connection (state %r)' % (R.c.state,))
+    meta = {'seed': seed, 'kind': 'reconnect', 'ops': ops, 'faulty': True, 'reconnect_flag': flag,
+            'generations': R.gen, 'timeout': tmo,
+            'frames': [[g, len(streams[g]['ids']), streams[g]['fed']] for g in sorted(streams)],
+            'n_frames': sum(len(x['ids']) for x in streams.values()), 'log': [list(e) for e in R.log][:80]}
+    table = dict(oracle.table)
+    F.uninstall(T)
+    return {'R': R, 'table': table, 'meta': meta, 'problems': problems}
+
+
+def run_any(seed, T):
+    return run_reconnect_case(seed, T) if is_reconnect_seed(seed) else run_case(seed, T)
+
 def _case_worker(args):
     seeds = args
     T = F.load_impl()
     out = []
     for s in seeds:
         try:
-            c = run_case(s, T)
+            c = run_any(s, T)
         except Exception as e:
             import traceback
             out.append({'seed': s, 'crash': traceback.format_exc()})
@@ -186,12 +397,18 @@ def _case_worker(args):
             except Exception:
                 pass
             continue
-        defs_s, call_s = F.v_case('s%d' % s, c['S'], {})
-        defs_r, call_r = F.v_case('r%d' % s, c['R'], c['table'])
-        out.append({'seed': s, 'meta': c['meta'], 'problems': c['problems'],
-                    'defs': defs_s + defs_r, 'calls': [call_s, call_r],
-                    'steps': len(c['S'].events) + len(c['R'].events),
-                    'delivered': len(c['R'].all_delivered)})
+        if 'S' in c:
+            defs_s, call_s = F.v_case('s%d' % s, c['S'], {})
+            defs_r, call_r = F.v_case('r%d' % s, c['R'], c['table'])
+            out.append({'seed': s, 'meta': c['meta'], 'problems': c['problems'],
+                        'defs': defs_s + defs_r, 'calls': [call_s, call_r], 'which': ['S', 'R'],
+                        'steps': len(c['S'].events) + len(c['R'].events),
+                        'delivered': len(c['R'].all_delivered)})
+        else:
+            defs_r, call_r = F.v_case('q%d' % s, c['R'], c['table'])
+            out.append({'seed': s, 'meta': c['meta'], 'problems': c['problems'],
+                        'defs': defs_r, 'calls': [call_r], 'which': ['R'],
+                        'steps': len(c['R'].events), 'delivered': len(c['R'].all_delivered)})
     return out
 
 
@@ -228,7 +445,7 @@ def run_cases(ctx, seeds, label):
         vals = coq.parse_coq_value(out)
         k = 0
         for r in grp:
-            for which in ('S', 'R'):
+            for which in r['which']:
                 v = vals[k]
                 k += 1
                 st['cases'] += 1
@@ -247,6 +464,10 @@ def run_cases(ctx, seeds, label):
             continue
         for op in r['meta']['ops']:
             ctx.count(COMPONENT, op.split(':')[0] if not op.startswith('corrupt') else op)
+        if r['meta'].get('kind') == 'reconnect':
+            ctx.count(COMPONENT, 'reconnect_cases')
+            ctx.count(COMPONENT, 'generations_%s' % min(r['meta']['generations'], 6))
+            continue
         ctx.count(COMPONENT, 'faulty_cases' if r['meta']['faulty'] else 'clean_cases')
         ctx.count(COMPONENT, 'frames_%s' % min(r['meta']['n_frames'], 10))
     return results
@@ -325,7 +546,7 @@ def search(ctx):
     hits = 0
     for i in range(n):
         try:
-            c = run_case(base + i, T)
+            c = run_any(base + i, T)
         except Exception:
             continue
         if c['problems']:
@@ -342,7 +563,7 @@ def search(ctx):
 def replay(ctx, data):
     T = F.load_impl()
     if data.get('kind') == 'pipe_case':
-        c = run_case(data['case_seed'], T)
+        c = run_any(data['case_seed'], T)
         print('problems:', c['problems'])
         if c['problems']:
             print('VIOLATION property=C13 replay=(replayed)')
